@@ -2697,6 +2697,14 @@ void Analyser::AnalyserImpl::analyseModel(const ModelPtr &model)
                 description += " variable of integration which cannot be used as an external variable.";
 
                 referenceRule = Issue::ReferenceRule::ANALYSER_EXTERNAL_VARIABLE_VOI;
+
+                // Make sure that the variable of integration is not considered
+                // as an external variable.
+
+                auto voiInternalVariable = Analyser::AnalyserImpl::internalVariable(primaryExternalVariable.first);
+
+                voiInternalVariable->mIsExternal = false;
+                voiInternalVariable->mDependencies.clear();
             } else {
                 description += (equivalentVariableCount == 1) ?
                                    " is marked as an external variable, but it is not a primary variable." :
